@@ -1624,6 +1624,72 @@ def check_errors(case, rec):
 # ---------------------------------------------------------------------------
 
 
+@st.composite
+def gen_intbins(draw, tier="quick"):
+    """Integer-typed bin centres (np.arange, lists of ints) with per-bin weights of any size."""
+    n = draw(st.integers(6, 14))
+    return {
+        "cls": draw(st.sampled_from(["Exponential", "Gaussian", "Spherical", "Matern"])),
+        "dim": draw(st.sampled_from([1, 2, 3])),
+        "n": n, "step": draw(st.sampled_from([1, 2, 3])),
+        "len_frac": draw(st.floats(0.15, 0.6)), "var": draw(logfloat(0.2, 20.0)), "nugget": draw(st.sampled_from([0.0, 0.1, 0.5])),
+        "weights": draw(st.lists(logfloat(0.01, 5.0), min_size=n, max_size=n)),
+        "normalise": draw(st.booleans()),
+        "xform": draw(st.sampled_from(["int64", "int32", "list"])),
+        "wform": draw(st.sampled_from(["array", "list"])),
+        "directional": draw(st.booleans()),
+        "loss": draw(st.sampled_from(["linear", "soft_l1"])),
+    }
+
+
+def check_intbins(case, rec):
+    cls, dim, n = case["cls"], case["dim"], case["n"]
+    tags = {"sub": "int_bins", "model": cls, "dim": dim}
+    rec.label(cls, case["xform"], case["wform"], "dir" if case["directional"] and dim > 1 else "iso")
+    xi = np.arange(1, n + 1, dtype=np.int64) * int(case["step"])
+    xf = xi.astype(float)
+    ls = float(case["len_frac"] * xf[-1])
+    w = np.array(case["weights"], dtype=float)
+    if case["normalise"]:
+        w = w / w.sum()
+    wa = w if case["wform"] == "array" else [float(v) for v in w]
+    is_dir = case["directional"] and dim > 1
+    anis_t = [0.5] * (dim - 1)
+    with quiet():
+        truth = getattr(gs, cls)(dim=dim, var=case["var"], len_scale=ls, nugget=case["nugget"], **({"anis": anis_t} if is_dir else {}))
+        if is_dir:
+            y = np.array([truth.vario_axis(xf, axis=a) for a in range(dim)])
+        else:
+            y = np.asarray(truth.variogram(xf), dtype=float)
+
+    def fit(xarg):
+        with quiet():
+            m = getattr(gs, cls)(dim=dim, var=1.3 * case["var"], len_scale=0.8 * ls, nugget=case["nugget"] + 0.05, **({"anis": [0.7] * (dim - 1)} if is_dir else {}))
+            try:
+                m.fit_variogram(xarg, y.copy(), weights=wa if case["wform"] == "list" else np.array(wa, dtype=float), init_guess="current", loss=case["loss"])
+            except RuntimeError:
+                return None  # scipy's optimiser gave up (maximum number of evaluations): nothing to compare
+            except Exception as exc:  # noqa: BLE001
+                raise Violation(f"fit_variogram raised {type(exc).__name__}: {exc}", tags=dict(tags, kind="exception")) from exc
+        return np.array([m.var, m.len_scale, m.nugget] + [float(a) for a in m.anis], dtype=float)
+
+    xint = xi.astype(np.int32) if case["xform"] == "int32" else (xi.tolist() if case["xform"] == "list" else xi)
+    p_int = fit(xint)
+    p_flt = fit(xf.copy())
+    if p_int is None or p_flt is None:
+        require((p_int is None) == (p_flt is None), "the optimiser gives up for one of integer / float bin centres only", dict(tags, kind="int_bins"))
+        rec.exclude("optimiser_gave_up")
+        return
+    sc = np.array([case["var"], ls, case["var"]] + [1.0] * (dim - 1))
+    dev = float(np.max(np.abs(p_int - p_flt) / sc))
+    rec.discrepancy("int_vs_float_bins", dev, 1e-9)
+    require(dev <= 1e-9,
+            f"{cls} d={dim}: fit on integer-typed bin centres {p_int.tolist()} differs from the fit on the same numbers as floats {p_flt.tolist()} "
+            f"(weights min {float(np.min(w)):.3g}, max {float(np.max(w)):.3g})",
+            dict(tags, kind="int_bins"))
+    rec.nontrivial(True)
+
+
 def _g(mode, kind):
     return lambda tier: gen_fit(tier, mode=mode, kind=kind)
 
@@ -1635,4 +1701,5 @@ SUBS = [
     Sub("constrain_iso", _g("iso", "constrain"), check_fit, quick=900, thorough=10000, shards_quick=3, shards_thorough=2, shrink_quick=False),
     Sub("constrain_dir", _g("dir", "constrain"), check_fit, quick=500, thorough=4000, shards_quick=2, shards_thorough=1, shrink_quick=False),
     Sub("errors", gen_errors, check_errors, quick=300, thorough=3000, shards_quick=1, shards_thorough=1),
+    Sub("int_bins", gen_intbins, check_intbins, quick=200, thorough=3000, shards_quick=1, shards_thorough=2),
 ]
